@@ -445,3 +445,36 @@ def run(ctx):
         ctx.check(ok, RJ, "decompress_literals::stream-order", body["file"], "streams are decoded in order 1,2,3,4",
                   observed=[H.show(x["iter"]) for x in fr])
     ctx.guard(RJ, "jump", jump)
+
+    # (g) a match is a copy of the decoder's own output `offset` bytes back: what repeat() appends must come from the
+    # buffer itself at that distance (a fast path that takes the byte from somewhere else is wrong once the ring wrapped)
+    RMC = "C01.prov.match-copy"
+
+    def match_copy():
+        DBUF = "ruzstd::decoding::decode_buffer::DecodeBuffer"
+        RBL = "ruzstd::decoding::ringbuffer::RingBuffer::len(self.buffer)"
+        readers = {"len", "as_slices", "free", "capacity", "is_empty"}
+        allowed = {"reserve", "extend_from_within_unchecked", "extend_from_within"}
+        for fn in ("repeat", "repeat_in_chunks"):
+            b = ctx.hir(DBUF + "::" + fn)
+            cf = hq.Canon(b, force=True)
+            ops = [(x["name"], [cf(a) for a in x["args"]]) for x in hq.find(b["body"], lambda x: x.get("k") == "MethodCall" and
+                                                                           cf(x["recv"]).replace("&mut ", "") == "self.buffer")]
+            other = sorted({n_ for n_, _ in ops} - readers - allowed)
+            ctx.check(not other, RMC, fn + "::buffer-grows-only-by-copy-from-within", b["file"],
+                      "repeat() may extend the buffer only with extend_from_within[_unchecked] (bytes of the buffer itself)", observed=other or sorted({n_ for n_, _ in ops}))
+            copies = [a for n_, a in ops if n_.startswith("extend_from_within")]
+            if fn == "repeat":
+                start = "(%s - $0)" % RBL
+                chunks = [[cf(a) for a in x["args"]] for x in hq.find(b["body"], lambda x: x.get("k") == "MethodCall" and x["name"] == "repeat_in_chunks")]
+                ctx.check(copies == [[start, "$1"]] and chunks == [["$0", "$1", start]], RMC, "repeat::copies-from-len-minus-offset", b["file"],
+                          "the copy starts at len - offset and is match_length long (directly, or in chunks of at most `offset` bytes)",
+                          observed={"direct": copies, "chunked": chunks})
+            else:
+                upd = sorted(hq.Canon(b)(x) if False else H.show(x) for x in hq.find(b["body"], lambda x: x.get("k") == "AssignOp"))
+                ok = copies == [["$2", "core::cmp::Ord::min($0, $1)"]] and len(upd) == 2 and any(u.startswith("start_idx += ") for u in upd) and \
+                    any(u.startswith("copied_counter_left -= ") for u in upd)
+                ctx.check(ok, RMC, "repeat_in_chunks::chunk-is-min-offset-remaining", b["file"],
+                          "each chunk copies min(offset, remaining) bytes from the running start and both advance by the chunk size",
+                          observed={"copies": copies, "updates": upd})
+    ctx.guard(RMC, "match_copy", match_copy)
